@@ -234,6 +234,28 @@ CORPORA.update({
     ),
 })
 
+CORPORA.update({
+    # the persistent "evil lock" profiles of the repository's tests/evil_*.rs: every lock / try / unlock of ONE leaf
+    # panics.  The model handles the first fault exactly and approximates later ones, so conformance is not claimed
+    # here (drift is expected); the monitor's C12 rules judge the real traces.
+    "evil": dict(
+        module="MC.tla", monitor_only=True,
+        quick=dict(consts=dict(Family="fault", FltColls={1, 2, 3, 18, 19, 21}, FltApis={"lock", "try_lock", "read", "scoped_lock"},
+                               FltKeys={"owned"}, FltRels={"drop"}, FltHolders={("none", 0)}, FltMaxAt=1,
+                               FltPersist={(1, "lock"), (1, "try"), (1, "unlock"), (3, "lock"), (3, "try"), (3, "unlock"),
+                                           (2, "unlock"), (5, "unlock")},
+                               FltTryProbes=FLT_PROBES_TRY, FltLockProbes=FLT_PROBES_LOCK, Policies={"RP"}),
+                   parts=8, max_runs=30000),
+        thorough=dict(consts=dict(Family="fault", FltColls={1, 2, 3, 5, 6, 18, 19, 21, 22, 23}, FltApis=ALL_APIS,
+                                  FltKeys={"owned", "lent"}, FltRels={"drop", "unlock"}, FltHolders={("none", 0), ("lock", 17)},
+                                  FltMaxAt=1,
+                                  FltPersist={(1, "lock"), (1, "try"), (1, "unlock"), (2, "lock"), (2, "try"), (2, "unlock"),
+                                              (3, "lock"), (3, "try"), (3, "unlock"), (5, "lock"), (5, "unlock"), (6, "try")},
+                                  FltTryProbes=FLT_PROBES_TRY, FltLockProbes=FLT_PROBES_LOCK, Policies={"RP"}),
+                      parts=16, max_runs=200000),
+    ),
+})
+
 PROPS = {
     "C01": dict(corpora=["conc2", "size3", "conc3", "nest", "conc2x2"], design="DESIGN.md §5 C01"),
     "C02": dict(corpora=["conc2", "size3", "nest"], design="DESIGN.md §5 C02"),
@@ -247,6 +269,6 @@ PROPS = {
     "C10": dict(corpora=["panic", "poisonseq"], design="DESIGN.md §5 C10"),
     "C11": dict(corpora=["concpanic", "panic", "seqkey2"], design="DESIGN.md §5 C11"),
     "C17": dict(corpora=["ops"], design="DESIGN.md §5 C17"),
-    "C12": dict(corpora=["fault"], design="DESIGN.md §5 C12"),
+    "C12": dict(corpora=["fault", "evil"], design="DESIGN.md §5 C12"),
     "C07": dict(corpora=["ctor"], design="DESIGN.md §5 C07"),
 }
